@@ -35,7 +35,10 @@
 (***************************************************************************)
 EXTENDS Lookupd, Json, Sequences
 
-CONSTANTS Pollers, Admins
+CONSTANTS Pollers, Admins,
+          AllowLoss   \* FALSE: an UNREGISTER removing an OCCUPIED ephemeral key is not a step of the model (the trace is
+                      \*        rejected unless some other attribution of the events explains it);
+                      \* TRUE : diagnosis pass - the step is taken and recorded in `lost' (invariant NoLostRegistration)
 
 Trace == ndJsonDeserialize("trace.ndjson")
 
@@ -248,18 +251,25 @@ TAddReg ==
   /\ UNCHANGED <<conn, lu, now, act, pend, lost, stats>>
   /\ Seen
 
-\* RemoveRegistration: by an admin delete, or by an UNREGISTER that found an ephemeral key empty
+\* RemoveRegistration: by an admin delete, or by an UNREGISTER that found an ephemeral key empty.
+\* The event does not say who called, TLC tries every attribution; the trace is accepted when one of them explains
+\* the whole log.  An admin delete may take other connections' registrations with it, an UNREGISTER may not.
+AdminRemoves(a, k) ==
+  LET c == apend[a] IN
+  \/ c.op = "DeleteTopic" /\ c.pc = "go" /\ k[1] = "channel" /\ k[2] = c.t /\ k \notin c.seen
+  \/ c.op = "DeleteTopic" /\ c.pc = "go" /\ k = TopicKey(c.t)
+  \/ c.op = "DeleteChannel" /\ c.pc = "go" /\ k = ChanKey(c.t, c.c)
 TRemReg ==
   /\ IsEvent("DBRemReg")
   /\ LET k == KeyOf(Ev) IN
      /\ k \in AllKeys
      /\ \/ /\ \E a \in Admins : LET c == apend[a] IN
-                \/ c.op = "DeleteTopic" /\ c.pc = "go" /\ k[1] = "channel" /\ k[2] = c.t /\ k \notin c.seen
-                   /\ apend' = [apend EXCEPT ![a].seen = @ \cup {k}]
-                \/ c.op = "DeleteTopic" /\ c.pc = "go" /\ k = TopicKey(c.t) /\ apend' = [apend EXCEPT ![a].pc = "done"]
-                \/ c.op = "DeleteChannel" /\ c.pc = "go" /\ k = ChanKey(c.t, c.c) /\ apend' = [apend EXCEPT ![a].pc = "done"]
+                /\ AdminRemoves(a, k)
+                /\ apend' = IF c.op = "DeleteTopic" /\ k[1] = "channel"
+                            THEN [apend EXCEPT ![a].seen = @ \cup {k}] ELSE [apend EXCEPT ![a].pc = "done"]
            /\ UNCHANGED <<pend, lost>>
-        \/ /\ \E p \in Producers : LET c == pend[p] IN
+        \/ /\ prods[k] = {} \/ AllowLoss
+           /\ \E p \in Producers : LET c == pend[p] IN
                 /\ c.op = "Unregister" /\ c.pc = "remreg"
                 /\ k = (IF c.c # "" THEN ChanKey(c.t, c.c) ELSE TopicKey(c.t))
                 /\ pend' = [pend EXCEPT ![p].pc = "done"]
